@@ -28,7 +28,7 @@ func init() {
 	register(&Rule{Name: "SCOPE.LEX", Props: []string{"C06", "C09"}, Floor: 3,
 		Doc: "grouping lookup starts at the uses node; typedef lookup walks ancestors from the type node; a foreign prefix resolves in that module only",
 		Run: ruleScopeLex})
-	register(&Rule{Name: "ID.KEY", Props: []string{"C11"}, Floor: 3,
+	register(&Rule{Name: "ID.KEY", Props: []string{"C11"}, Floor: 2,
 		Doc: "writer and readers of the identity dictionary agree on the owner-module:name key",
 		Run: ruleIDKey})
 }
